@@ -48,7 +48,12 @@ def gen_cases(rng, tier):
         if block is not None and len(block) > 2:
             out = "compact"
         eng = "py" if rng.random() < 0.5 else "c"
-        st = {"window": rng.choice([None, 1, 2, 3]), "penalty": rng.choice([None, 1]), "psi": None, "max_step": None,
+        ml = min(len(x) for x in series)
+        psi = None
+        if rng.random() < 0.4 and ml >= 2:
+            # asymmetric relaxation: d(a,b) != d(b,a) in general, so the ORDER of the pair matters
+            psi = [rng.randint(0, ml - 1), rng.randint(0, ml - 1), rng.randint(0, ml - 1), rng.randint(0, ml - 1)]
+        st = {"window": rng.choice([None, 1, 2, 3]), "penalty": rng.choice([None, 1]), "psi": psi, "max_step": None,
               "max_length_diff": None, "inner_dist": rng.choice(dtwgen.INNERS) if nd == 1 else "squared euclidean"}
         cases.append({"site": eng + "." + out, "eng": eng, "out": out, "series": series, "ndim": nd, "block": block,
                       "as_matrix": eq and rng.random() < 0.5, "settings": st, "n": ns})
